@@ -21,7 +21,7 @@ use crate::util::*;
 use ark_ec::{short_weierstrass as sw, twisted_edwards as te, AffineRepr, CurveConfig, CurveGroup};
 use ark_ff::{BigInteger, Field, Fp, MontBackend, MontConfig, MontFp, PrimeField, Zero};
 use ark_serialize::{
-    CanonicalDeserialize, CanonicalSerialize, Compress, EmptyFlags, Flags, SerializationError, Validate,
+    CanonicalDeserialize, CanonicalSerialize, CanonicalSerializeWithFlags, Compress, EmptyFlags, Flags, SerializationError, Validate,
 };
 use std::io::Read;
 
@@ -463,6 +463,57 @@ pub fn dedup(v: Vec<Vec<u8>>) -> Vec<Vec<u8>> {
     v.into_iter().filter(|x| seen.insert(x.clone())).collect()
 }
 
+// ------------------------------------------------------------------ field byte strings
+pub fn ser_fl<F: Field, Fl: NF>(x: &F, fl: Fl) -> Option<Vec<u8>> {
+    let mut b = Vec::new();
+    x.serialize_with_flags(&mut b, fl).ok().map(|_| b)
+}
+
+/// byte strings offered to `deserialize_with_flags::<Fl>` (C09 uniqueness, C10 malformed input): valid encodings, top-byte sweeps,
+/// non-reduced integers, stray bits, random strings; exhaustive for sizes ≤ `exh`
+pub fn field_strings<F: Field, Fl: NF>(rng: &mut Rng, vals: &[F], exh: usize, sweeps: usize, all_trunc: bool) -> Vec<Vec<u8>>
+where F::BasePrimeField: PrimeField {
+    let size = F::zero().serialized_size_with_flags::<Fl>();
+    if <Fl as ark_serialize::Flags>::BIT_SIZE > 8 { return vec![vec![0u8; size], vec![]]; }
+    if size <= exh {
+        let mut v = all_strings(size);
+        if all_trunc { for l in 0..size { v.extend(all_strings(l).into_iter().take(300)); } v.push(vec![7u8; size + 1]); v.push(vec![9u8; size + 9]); }
+        return v;
+    }
+    let k = F::extension_degree() as usize;
+    let s0 = F::BasePrimeField::zero().serialized_size_with_flags::<EmptyFlags>();
+    let sl = F::BasePrimeField::zero().serialized_size_with_flags::<Fl>();
+    assert_eq!(size, (k - 1) * s0 + sl);
+    let mut v: Vec<Vec<u8>> = Vec::new();
+    let fls = Fl::samples();
+    let mut valid: Vec<Vec<u8>> = Vec::new();
+    for (i, x) in vals.iter().enumerate() {
+        if let Some(b) = ser_fl(x, fls[i % fls.len()]) { valid.push(b); }
+    }
+    v.extend(valid.iter().take(12).cloned());
+    // top byte: every value (flag bits × stray bits × top integer bits)
+    let wide = Fl::NAME.starts_with('W');
+    for b in valid.iter().take(sweeps) { v.extend(sweep(b, size - 1).into_iter().enumerate().filter(|(i, _)| !wide || i % 8 == 0 || i % 8 == 7).map(|(_, x)| x)); }
+    // byte below the top one (where the top integer bits live when the flags spill into an extra byte)
+    if sl > s0 { if let Some(b) = valid.get(1) { v.extend(sweep(b, size - 2).into_iter().enumerate().filter(|(i, _)| !wide || i % 8 == 0 || i % 8 == 7).map(|(_, x)| x)); } }
+    // coordinate edges at every coordinate position
+    let base = valid.get(2).cloned().unwrap_or(vec![0u8; size]);
+    for i in 0..k {
+        let len = if i + 1 == k { sl } else { s0 };
+        for e in coord_edges::<F::BasePrimeField>(len) {
+            let mut w = base.clone();
+            w[i * s0..i * s0 + len].copy_from_slice(&e);
+            v.push(w.clone());
+            // the same integer under every flag pattern of the sample
+            if i + 1 == k { for fl in &fls { let mut u = w.clone(); u[size - 1] |= fl.u8_bitmask(); v.push(u); } }
+        }
+    }
+    for _ in 0..10 { v.push(rand_bytes(rng, size)); }
+    if all_trunc { v.extend(truncations(&base)); } else { v.extend(truncations(&base).into_iter().take(if size > 40 { 12 } else { size + 2 })); }
+    dedup(v)
+}
+
+
 // ------------------------------------------------------------------ curve point generators
 /// all affine points (without the identity) of a toy SW curve over a toy prime field
 pub fn sw_all_points<P: sw::SWCurveConfig>() -> Vec<sw::Affine<P>> where P::BaseField: PrimeField {
@@ -586,4 +637,38 @@ where P::BaseField: PrimeField {
         other.push((t + sub[rng.below(sub.len() as u64) as usize]).into_affine());
     }
     (sub, other)
+}
+
+// ------------------------------------------------------------------ point byte strings (C10)
+/// Malformed / borderline encodings derived from valid ones.  `slots` = (offset, len) of each
+/// coordinate, the last slot carries the flag bits in its last byte.
+/// Returns (core, bulk): `core` is small (flag-bit combinations on valid encodings, coordinate
+/// edges p, p+1, 2^bits-1, stray bits), `bulk` holds the top-byte sweeps, every truncation, trailing
+/// bytes and random strings.
+pub fn point_strings<Fq: PrimeField>(rng: &mut Rng, valid: &[Vec<u8>], size: usize, slots: &[(usize, usize)], sweeps: usize, nrand: usize)
+    -> (Vec<Vec<u8>>, Vec<Vec<u8>>) {
+    let mut core: Vec<Vec<u8>> = Vec::new();
+    let mut bulk: Vec<Vec<u8>> = Vec::new();
+    core.extend(valid.iter().cloned());
+    // every combination of the two top bits on valid encodings (identity flag on non-zero
+    // coordinates, flipped sign, the invalid combination)
+    for b in valid.iter().take(4) {
+        for top in [0x00u8, 0x40, 0x80, 0xc0] { let mut w = b.clone(); w[size - 1] = (w[size - 1] & 0x3f) | top; core.push(w); }
+    }
+    let base = valid.iter().find(|b| b.iter().any(|t| *t != 0) && b[size - 1] & 0x40 == 0).cloned().unwrap_or(vec![0u8; size]);
+    for (i, (off, len)) in slots.iter().enumerate() {
+        for e in coord_edges::<Fq>(*len) {
+            let mut w = base.clone();
+            w[*off..*off + *len].copy_from_slice(&e);
+            core.push(w.clone());
+            if i + 1 == slots.len() { for top in [0x40u8, 0x80, 0xc0] { let mut u = w.clone(); u[size - 1] |= top; core.push(u); } }
+        }
+    }
+    for b in valid.iter().take(sweeps) { bulk.extend(sweep(b, size - 1)); }
+    let (_, llen) = slots[slots.len() - 1];
+    if llen >= 2 { bulk.extend(sweep(&base, size - 2).into_iter().step_by(3)); }
+    bulk.extend(truncations(&base));
+    if let Some(b) = valid.get(0) { bulk.extend(truncations(b).into_iter().step_by(5)); }
+    for _ in 0..nrand { bulk.push(rand_bytes(rng, size)); }
+    (dedup(core), dedup(bulk))
 }
